@@ -139,16 +139,33 @@ static void run_solver(vf::Ctx& ctx, const Fac& fac, const std::string& tag, boo
     long ret = -1;
     try
     {
-        if (sk == 0) es->init();
-        else
+        // the hand-over to the Ritz extraction: when compute() returns, the factorization it worked on has the advertised dimension ncv and satisfies the
+        // invariants (no hook fires there: a compute() that skips the extension, or works on a stale factorization, raises no event at all)
+        auto handover = [&]() {
+            auto& f = SpectraVerifAccess::fac(*es);
+            const long k = (long) f.subspace_dim();
+            ctx.count("handover_checks");
+            if (k != d.ncv) mon.findings.push_back(vm::Finding{"k differs from the advertised dimension (ncv) when compute() returns", (LD) k, (LD) d.ncv, mon.events, k, "handover"});
+            vfh::event("handover", f, (Eigen::Index) k);
+        };
+        // one to three sessions on the same object: init()/init(v), then one or two compute()
+        const int sessions = r.coin(0.6) ? 1 : (int) r.range(2, 3);
+        for (int ses = 0; ses < sessions; ses++)
         {
-            Vec v(d.n);
-            for (int i = 0; i < d.n; i++) v[i] = sk == 1 ? Scalar(T(r.gauss())) : (sk == 2 ? Scalar(T(i == d.n / 3 ? 1 : 0)) : Scalar(T(1)));
-            es->init(v.data());
+            const int sks = ses == 0 ? sk : (clean ? (int) r.range(0, 1) : (int) r.range(0, 3));
+            if (sks == 0) es->init();
+            else
+            {
+                Vec v(d.n);
+                for (int i = 0; i < d.n; i++) v[i] = sks == 1 ? Scalar(T(r.gauss())) : (sks == 2 ? Scalar(T(i == d.n / 3 ? 1 : 0)) : Scalar(T(1)));
+                es->init(v.data());
+            }
+            ret = (long) es->compute(ses == 0 ? sel : r.pick(fac.select_rules()), ses == 0 ? maxit : r.pick(maxits), tol, fac.sort_rules()[0]);
+            handover();
+            // the symmetric family continues cleanly after a compute(); exercise that too
+            if (!Fac::is_gen && r.coin(0.3)) { ret = (long) es->compute(r.pick(fac.select_rules()), r.pick(maxits), tol, fac.sort_rules()[0]); handover(); }
+            ctx.count("sessions");
         }
-        ret = (long) es->compute(sel, maxit, tol, fac.sort_rules()[0]);
-        // the symmetric family continues cleanly after a compute(); exercise that too
-        if (!Fac::is_gen && r.coin(0.3)) ret = (long) es->compute(r.pick(fac.select_rules()), r.pick(maxits), tol, fac.sort_rules()[0]);
     }
     catch (const std::exception&) { outcome = "exception"; }
     vm::Monitor::uninstall();
